@@ -31,6 +31,22 @@ def run(ctx, res):
                         if a["hasDefault"] and t0["k"] == "list" and t0["of"]["k"] == "nn" and t0["of"]["of"]["k"] == "named":
                             sites.append([f["name"], a["name"], t0["of"]["of"]["n"]])
         kinds[sc["name"]]["nnListDefaultSites"] = sites
+        # (field name, interface) pairs: the field's type is an interface J, and I is an interface implementing J that no object implements
+        dsm = sc["model"]["defs"]
+        ifaces = {d["name"]: d for d in dsm if d["k"] == "interface"}
+        impl_objs = {i["n"] for d in dsm if d["k"] == "object" for i in d["interfaces"]}
+        empty = [n for n in ifaces if n not in impl_objs]
+        esites = []
+        for d in dsm:
+            if d["k"] in ("object", "interface"):
+                for f in d["fields"]:
+                    t0 = f["type"]
+                    while t0["k"] != "named":
+                        t0 = t0["of"]
+                    for e in empty:
+                        if t0["n"] in ifaces and t0["n"] != e and any(i["n"] == t0["n"] for i in ifaces[e]["interfaces"]):
+                            esites.append([f["name"], e])
+        kinds[sc["name"]]["emptyIfaceSites"] = esites
         ds = sc["model"]["defs"]
         explicit = [o["op"] for d in ds if d["k"] == "schema" for o in d["ops"]]
         kinds[sc["name"]]["rootKinds"] = explicit if any(d["k"] == "schema" for d in ds) else \
